@@ -52,7 +52,7 @@ def values(ctx):
             (1, 2), {1, 2}, MyStr("sub"), MyInt(7), MyBytes(b"sub"), b"a" * 400, b"a" * 401, "b" * 401, 10 ** 399, 10 ** 400,
             10 ** 401, [0] * 300, bytes(rng.randrange(256) for _ in range(500)), "x" * 9, "x" * 10, "x" * 11, b"y" * 10,
             b"y" * 11, 12345678901, 123456789012]
-    for _ in range(60 if ctx.quick else 1500):
+    for _ in range(60 if ctx.quick else 300):
         k = rng.randrange(6)
         n = rng.choice([0, 1, 5, 9, 10, 11, 50, 399, 400, 401, 1000])
         if k == 0:
